@@ -188,25 +188,33 @@ def r3_normal_form(ctx: Ctx) -> None:
         for n in adds:
             v = n.args[0]
             gen = None
-            if isinstance(v, ast.Name):
+            low_here = isinstance(v, ast.Call) and isinstance(v.func, ast.Attribute) and v.func.attr == 'lower' and not v.args
+            core = v.func.value if low_here else v
+            if isinstance(core, ast.Name):
                 for a_ in ancestors(n):
-                    if isinstance(a_, ast.For) and isinstance(a_.target, ast.Name) and a_.target.id == v.id and isinstance(a_.iter, ast.Call) and isinstance(a_.iter.func, ast.Name):
-                        r_ = proj.resolve_name(f.module, a_.iter.func.id)
-                        if r_ and r_[0] == 'func' and any(isinstance(y, ast.Yield) for y in ast.walk(r_[1].node)):
-                            gen = r_[1]
+                    if isinstance(a_, ast.For) and isinstance(a_.target, ast.Name) and a_.target.id == core.id and isinstance(a_.iter, ast.Call):
+                        fn_ = a_.iter.func
+                        cand = None
+                        if isinstance(fn_, ast.Name):
+                            r_ = proj.resolve_name(f.module, fn_.id)
+                            cand = r_[1] if r_ and r_[0] == 'func' else None
+                        elif isinstance(fn_, ast.Attribute) and isinstance(fn_.value, ast.Name) and f.cls is not None and fn_.value.id in ('self', 'cls', f.cls.name):
+                            cand = f.cls.methods.get(fn_.attr)
+                        if cand is not None and any(isinstance(y, ast.Yield) for y in ast.walk(cand.node)):
+                            gen = cand
             if gen is None:
-                work.append((f, fl, n, v))
+                work.append((f, fl, n, v, False))
             else:
                 gfl_ = get_flow(proj, gen)
                 for y in [y for y in ast.walk(gen.node) if isinstance(y, ast.Yield) and y.value is not None]:
-                    work.append((gen, gfl_, y, y.value))
-        for f, fl, n, v in work:
+                    work.append((gen, gfl_, y, y.value, low_here))
+        for f, fl, n, v, lowered_by_consumer in work:
             label = f'add:{src(v)}'
             lowered = isinstance(v, ast.Call) and isinstance(v.func, ast.Attribute) and v.func.attr == 'lower' and not v.args
-            if not lowered:
+            if not lowered and not lowered_by_consumer:
                 ctx.fail('C02.R3', f, label, f'{src(n)!r}: tag is not lower-cased', n)
                 continue
-            inner = v.func.value
+            inner = v.func.value if lowered else v
             g = fl.cfg.guard_literals(fl.stmt_of(n))
             if isinstance(inner, ast.Name):
                 # inner must be a stripped value and tested for truthiness
@@ -219,7 +227,25 @@ def r3_normal_form(ctx: Ctx) -> None:
                     if _is_stripped_value(val):
                         stripped = True
                     elif isinstance(ds, ast.For):
-                        stripped = stripped or False
+                        # a loop over a collection every element of which is a stripped value (`for s in [str(v).strip()]`, `for s in (x.strip() … for x in xs)`)
+                        def elems(e, depth=0):
+                            if isinstance(e, (ast.List, ast.Tuple, ast.Set)):
+                                return list(e.elts)
+                            if isinstance(e, (ast.GeneratorExp, ast.ListComp, ast.SetComp)):
+                                return [e.elt]
+                            if isinstance(e, ast.Name) and depth < 2:
+                                out_ = []
+                                for d2 in fl.cfg.defs_reaching(ds, e.id):
+                                    v2 = getattr(fl.cfg.stmt.get(d2), 'value', None) if d2 != 'param' else None
+                                    sub = elems(v2, depth + 1) if v2 is not None else None
+                                    if sub is None:
+                                        return None
+                                    out_ += sub
+                                return out_ or None
+                            return None
+                        es = elems(ds.iter)
+                        if es and all(_is_stripped_value(x) for x in es):
+                            stripped = True
                     else:
                         # `for tag in …: tag = tag.strip()` – the loop variable definition is overwritten by the strip
                         pass
@@ -314,6 +340,8 @@ def r4_neutrality(ctx: Ctx, eng: Decider) -> None:
                             if any('is_categorization_rule' in c or _reads_attr(c, 'category') for c in cs) or any(i in cat_lists for i in its):
                                 cat_lists.add(s2.targets[0].id)
                 for t, truth in g:
+                    if not truth and t.endswith(' is None') and t[:-8].isidentifier():
+                        t, truth = t[:-8], True          # `winner is not None`
                     if not truth:
                         continue
                     if t in cat_lists:
